@@ -474,6 +474,10 @@ func mixEOL(r *fw.Rand, doc []byte) []byte {
 // listSize draws a list length: mostly small (0..small), now and then long, now and then right at the sizes where a
 // size-dependent code path would switch (insertion sort -> quick sort at 12, chunking or searching at 64/256/1024)
 func listSize(r *fw.Rand, small int) int {
+	if r.P(1, 150) {
+		// a long script (a merged season, a karaoke file): around the sizes where work might be split into chunks
+		return fw.Pick(r, []int{4095, 4096, 4097, 4098, 4099, 8191, 8193, 10001})
+	}
 	switch r.Intn(12) {
 	case 0:
 		return r.Range(small, 10*small)
